@@ -106,6 +106,9 @@ let () =
               | "permrows", p ->
                 let p = List.map (fun s -> nat_of_int (int_of_string s)) p in
                 if is_perm (nat_of_int (List.length u.u_rows)) p then Some (perm_rows p u, false, zero) else None
+              | "permcols", p ->
+                let p = List.map (fun s -> nat_of_int (int_of_string s)) p in
+                (match perm_cols p u with Some u' -> Some (u', false, zero) | None -> None)
               | "subst", at ->
                 let rec split = function a :: t :: r -> let (al, tl) = split r in (q_of_string a :: al, q_of_string t :: tl) | [] -> ([], []) | _ -> failwith "subst arity" in
                 let (al, tl) = split at in
@@ -120,7 +123,10 @@ let () =
             | None -> Printf.printf "A %s none\n" id
             | Some (u', neg, b) ->
               Printf.printf "A %s ok %d %s %d %d\n" id (if neg then 1 else 0) (string_of_q b) (List.length u'.u_cols) (List.length u'.u_rows);
-              print_lp_block "t" u' cn)
+              let cn' = (match kind, xargs with
+                | "permcols", p -> List.map (fun s -> List.nth cn (int_of_string s)) p
+                | _ -> cn) in
+              print_lp_block "t" u' cn')
          | "kkt", [ sem ] ->
            let hdr = (match next_tokens ic with Some h -> h | None -> failwith "eof") in
            let (p, _) = read_ilp ic hdr in
